@@ -488,6 +488,21 @@ func c20Count(c *Ctx) *RuleResult {
 		Doc: "the entry-count delta returned by OpenedFile.Lock/Unlock/UnlockAll is added to the lock-owner file's lockCount (so that 'holds locks' is known exactly); and the function that removes a lock-owner file asserting lockCount == 0 is only called behind a lockCount guard that returns an error, or after the UnlockAll delta was added"}
 	p := c.P
 	units := p.UnitsIn(nfsPkg)
+	lc40 := p.LookupField(nfsPkg, "nfs40LockOwnerFileState", "lockCount")
+	lc41 := p.LookupField(nfsPkg, "nfs41LockOwnerFileState", "lockCount")
+	// isLC: the expression is the lock count of a lock-owner file (the field object, not its name)
+	isLC := func(info *types.Info, e ast.Expr) bool {
+		f := fieldOf(info, e)
+		return f != nil && (f == lc40 || f == lc41)
+	}
+	// lcCmp: guard `<recv>.lockCount OP k` -> (receiver text, op, k)
+	lcCmp := func(info *types.Info, g Guard) (string, token.Token, string, bool) {
+		be, ok := ast.Unparen(g.Cond).(*ast.BinaryExpr)
+		if !ok || !g.Pos || !isLC(info, be.X) {
+			return "", 0, "", false
+		}
+		return exprStr(ast.Unparen(be.X).(*ast.SelectorExpr).X), be.Op, exprStr(be.Y), true
+	}
 	for _, u := range units {
 		info := u.Info()
 		ast.Inspect(u.Decl.Body, func(n ast.Node) bool {
@@ -510,12 +525,12 @@ func c20Count(c *Ctx) *RuleResult {
 			// directly: X.lockCount += call   or   d, _ := call ... X.lockCount += d
 			for _, anc := range pathTo(u.Decl.Body, call) {
 				if as, ok := anc.(*ast.AssignStmt); ok {
-					if as.Tok == token.ADD_ASSIGN && strings.HasSuffix(exprStr(as.Lhs[0]), ".lockCount") {
+					if as.Tok == token.ADD_ASSIGN && isLC(info, as.Lhs[0]) {
 						used = true
 					} else if len(as.Rhs) == 1 && ast.Unparen(as.Rhs[0]) == ast.Expr(call) {
 						dv := exprStr(as.Lhs[0])
 						ast.Inspect(u.Decl.Body, func(m ast.Node) bool {
-							if o, ok := m.(*ast.AssignStmt); ok && o.Tok == token.ADD_ASSIGN && strings.HasSuffix(exprStr(o.Lhs[0]), ".lockCount") && exprStr(o.Rhs[0]) == dv {
+							if o, ok := m.(*ast.AssignStmt); ok && o.Tok == token.ADD_ASSIGN && isLC(info, o.Lhs[0]) && exprStr(o.Rhs[0]) == dv {
 								used = true
 								// ... for every value of the delta: a merge of adjacent ranges is negative, a split positive
 								for _, gd := range flattenGuards(GuardsOf(info, u.Decl.Body, o)) {
@@ -563,7 +578,7 @@ func c20Count(c *Ctx) *RuleResult {
 								}
 							}
 							ast.Inspect(hd.Body, func(k ast.Node) bool {
-								if o, ok := k.(*ast.AssignStmt); ok && o.Tok == token.ADD_ASSIGN && strings.HasSuffix(exprStr(o.Lhs[0]), ".lockCount") && exprStr(o.Rhs[0]) == pname && pname != "" {
+								if o, ok := k.(*ast.AssignStmt); ok && o.Tok == token.ADD_ASSIGN && isLC(p.InfoFor(hd), o.Lhs[0]) && exprStr(o.Rhs[0]) == pname && pname != "" {
 									used = true
 								}
 								return true
@@ -587,7 +602,10 @@ func c20Count(c *Ctx) *RuleResult {
 			continue
 		}
 		first, ok := u.Decl.Body.List[0].(*ast.IfStmt)
-		if !ok || !strings.HasSuffix(exprStr(ast.Unparen(first.Cond).(interface{ Pos() token.Pos }).(ast.Expr)), ".lockCount != 0") {
+		if !ok {
+			continue
+		}
+		if fb, isB := ast.Unparen(first.Cond).(*ast.BinaryExpr); !isB || fb.Op != token.NEQ || exprStr(fb.Y) != "0" || !isLC(u.Info(), fb.X) {
 			continue
 		}
 		if !terminates(u.Info(), first.Body.List) {
@@ -602,11 +620,7 @@ func c20Count(c *Ctx) *RuleResult {
 			construct := constructOf(cu, "remove-asserting-no-locks on "+recvExpr)
 			safe := false
 			for _, g := range flattenGuards(GuardsOf(info, cu.Decl.Body, call)) {
-				s := exprStr(g.Cond)
-				if g.Pos && s == recvExpr+".lockCount <= 0" {
-					safe = true
-				}
-				if g.Pos && s == recvExpr+".lockCount == 0" {
+				if rx, op, k, ok := lcCmp(info, g); ok && rx == recvExpr && k == "0" && (op == token.LEQ || op == token.EQL) {
 					safe = true
 				}
 			}
@@ -629,8 +643,7 @@ func c20Count(c *Ctx) *RuleResult {
 								rv := exprStr(ret.Results[0])
 								okRet := false
 								for _, g := range flattenGuards(GuardsOf(hinfo, hd.Body, ret)) {
-									gs := exprStr(g.Cond)
-									if g.Pos && (gs == rv+".lockCount <= 0" || gs == rv+".lockCount == 0") {
+									if rx, op, k, ok := lcCmp(hinfo, g); ok && rx == rv && k == "0" && (op == token.LEQ || op == token.EQL) {
 										okRet = true
 									}
 								}
@@ -649,7 +662,7 @@ func c20Count(c *Ctx) *RuleResult {
 			if !safe {
 				gcf := NewFuncCFG(info, cu.Decl.Body)
 				ast.Inspect(cu.Decl.Body, func(m ast.Node) bool {
-					if o, ok := m.(*ast.AssignStmt); ok && o.Tok == token.ADD_ASSIGN && exprStr(o.Lhs[0]) == recvExpr+".lockCount" && strings.Contains(exprStr(o.Rhs[0]), "UnlockAll(") {
+					if o, ok := m.(*ast.AssignStmt); ok && o.Tok == token.ADD_ASSIGN && isLC(info, o.Lhs[0]) && exprStr(ast.Unparen(o.Lhs[0]).(*ast.SelectorExpr).X) == recvExpr && strings.Contains(exprStr(o.Rhs[0]), "UnlockAll(") {
 						// the UnlockAll is itself under `if lockCount > 0`, its if-condition must dominate
 						for _, anc := range pathTo(cu.Decl.Body, o) {
 							if ifs, ok := anc.(*ast.IfStmt); ok && gcf.Dominates(ifs.Cond, call) {
